@@ -266,6 +266,36 @@ impl<F: Flavour> St<F> {
     }
 }
 
+/// "hand out the inserted nodes themselves": a returned original must show the edges of the
+/// node that was inserted (a detached copy with the same key and value would not)
+fn same_nodes<F: Flavour>(st: &St<F>, v: &[F::Node], what: &str) -> Result<(), (String, String)> {
+    for node in v {
+        let k = F::key(node);
+        if k >= st.n() || st.members.get(&k) != Some(&k) || st.twin_keys().contains(&k) {
+            continue;
+        }
+        let (mut out, mut inn) = World::<F>::lists_of(node);
+        let (mut wo, mut wi) = if F::DIRECTED {
+            (st.model.out(k), st.model.inn(k))
+        } else {
+            (st.model.adj(k), st.model.adj(k))
+        };
+        if !F::DIRECTED {
+            out.sort();
+            inn.sort();
+            wo.sort();
+            wi.sort();
+        }
+        if out != wo || inn != wi {
+            return Err((
+                format!("view:{what}"),
+                format!("the node with key {k} handed out by {what}() lists {out:?} / {inn:?}, the inserted node has {wo:?} / {wi:?}"),
+            ));
+        }
+    }
+    Ok(())
+}
+
 fn keyset<F: Flavour>(v: &[F::Node]) -> Vec<(usize, u64)> {
     let mut k: Vec<(usize, u64)> = v.iter().map(|n| (F::key(n), F::vid(n))).collect();
     k.sort();
@@ -343,6 +373,9 @@ fn step<F: Flavour>(st: &mut St<F>, op: &COp, stats: &mut Stats) -> Result<(), (
             if r != want {
                 return fail("map:get", format!("get({k}) = {r:?}, map model says {want:?}"));
             }
+            if let Some(n) = F::g_get(st.g(), *k) {
+                same_nodes::<F>(st, &[n], "get")?;
+            }
         }
         COp::Index { k } => {
             if let Some(oid) = st.members.get(k) {
@@ -376,10 +409,12 @@ fn step<F: Flavour>(st: &mut St<F>, op: &COp, stats: &mut Stats) -> Result<(), (
             }
         }
         COp::ToVec => {
-            let r = keyset::<F>(&F::g_to_vec(st.g()));
+            let v = F::g_to_vec(st.g());
+            let r = keyset::<F>(&v);
             if r != member_ids(st) {
                 return fail("view:to_vec", format!("to_vec() = {r:?}, members {:?}", member_ids(st)));
             }
+            same_nodes::<F>(st, &v, "to_vec")?;
         }
         COp::Iter => {
             let it = F::g_iter(st.g());
@@ -391,6 +426,8 @@ fn step<F: Flavour>(st: &mut St<F>, op: &COp, stats: &mut Stats) -> Result<(), (
             if r != member_ids(st) {
                 return fail("view:iter", format!("iter() = {r:?}, members {:?}", member_ids(st)));
             }
+            let v: Vec<F::Node> = it.iter().map(|x| x.1.clone()).collect();
+            same_nodes::<F>(st, &v, "iter")?;
         }
         COp::Roots | COp::Leaves | COp::Orphans => {
             let (name, got) = match op {
@@ -405,6 +442,7 @@ fn step<F: Flavour>(st: &mut St<F>, op: &COp, stats: &mut Stats) -> Result<(), (
                 if r != want {
                     return fail(&format!("view:{name}"), format!("{name}() = {r:?}, expected {want:?} (members {:?}, edges {:?})", st.members.keys().collect::<Vec<_>>(), st.model.edges));
                 }
+                same_nodes::<F>(st, &got, name)?;
                 stats.inc(&format!("view_{name}_checked"));
             }
         }
@@ -577,7 +615,14 @@ impl Engine for Container {
         }
         let directed = flavour.contains("digraph");
         let small = rng.chance(1, 2);
-        let n = if small { rng.range(1, 3) } else { rng.range(4, 9) };
+        let n = if small {
+            rng.range(1, 3)
+        } else if rng.chance(1, 30) {
+            // now and then a container well beyond a handful of members
+            rng.range(20, 70)
+        } else {
+            rng.range(4, 9)
+        };
         let prios: Vec<u32> = (0..n).map(|_| rng.below(4) as u32).collect();
         let dup_keys: Vec<usize> = (0..rng.range(1, 3)).map(|_| rng.below(n)).collect();
         let mut m = Model::new(directed, n);
